@@ -82,13 +82,20 @@ def main():
     for comp in args:
         for f, exp in expected.get(comp, {}).items():
             g, b = extract(os.path.join(REPO, f))
-            now = {f"{fn}::{lab}": e for (fn, lab), e in g.items()}
-            for key, e in exp["guards"].items():
+            # Compared as a multiset of (label, expression) per file, independent of the enclosing
+            # function: moving an assertion into a helper is a harmless rewrite, removing or
+            # weakening one is not.
+            from collections import Counter
+            now = Counter((lab, e) for (fn, lab), e in g.items())
+            want = Counter((key.split("::", 1)[1], e) for key, e in exp["guards"].items())
+            for (lab, e), cnt in want.items():
                 n += 1
-                if key not in now:
-                    problems.append(f"{f}: static assertion {key} ({e}) has disappeared")
-                elif now[key] != e:
-                    problems.append(f"{f}: static assertion {key} changed: expected `{e}`, found `{now[key]}`")
+                if now.get((lab, e), 0) < cnt:
+                    others = [x for (l2, x) in now if l2 == lab and x != e]
+                    if others:
+                        problems.append(f"{f}: static assertion {lab} changed: expected `{e}` x{cnt}, found `{others[0]}`")
+                    else:
+                        problems.append(f"{f}: static assertion {lab} ({e}) occurs {now.get((lab, e), 0)} times, expected {cnt}")
             for key, cnt in exp["bounds"].items():
                 n += 1
                 if b.get(key, 0) < cnt:
